@@ -408,3 +408,15 @@ pub fn start_watchdog(prop: String, limit_s: f64) {
         }
     });
 }
+
+/// resident set size of this process in GiB (0 if unknown)
+pub fn rss_gb() -> f64 {
+    std::fs::read_to_string("/proc/self/statm")
+        .ok()
+        .and_then(|s| s.split_whitespace().nth(1).and_then(|x| x.parse::<f64>().ok()))
+        .map(|pages| pages * 4096.0 / (1u64 << 30) as f64)
+        .unwrap_or(0.0)
+}
+pub fn rss_cap_gb() -> f64 {
+    std::env::var("VERIF_RSS_CAP_GB").ok().and_then(|s| s.parse().ok()).unwrap_or(20.0)
+}
